@@ -9,6 +9,7 @@ pub mod json;
 pub mod instr_sx;
 pub mod corpus;
 pub mod gen_prog;
+pub mod hdr_calls;
 pub mod ast_sx;
 pub mod refrun;
 pub mod rowcol;
